@@ -183,7 +183,7 @@ def atoms_of(prog, f, e, allow_assigned=()):
     return by_id, by_text
 
 
-def decide(prog, f, guards, prop, by_id, by_text, grid, extra_guards=(), G=None):
+def decide(prog, f, guards, prop, by_id, by_text, grid, extra_guards=(), G=None, confirm=None):
     """prop(ev) -> bool (may raise Undecidable).  guards: tuples from q.Guarded.of().
     -> ('holds', points checked) | ('fails', witness dict) | ('undecided', reason)"""
     ids = sorted(by_id)
@@ -209,6 +209,8 @@ def decide(prog, f, guards, prop, by_id, by_text, grid, extra_guards=(), G=None)
             ok = prop(ev)
         except Undecidable as u:
             return 'undecided', str(u)
+        if not ok and confirm is not None and not confirm(ev):
+            continue            # the structural guards admit the point, but no control-flow path reaches the site for it
         if not ok:
             w = {by_id[i]: bi[i] for i in ids}
             w.update(bt)
@@ -290,3 +292,32 @@ def result3(ev, stmts):
         if any(x.get('k') == 'return' for x in _ws(st)):
             return None
     return FALL
+
+
+def reaches(cfg, ev, target):
+    """Path-sensitive reachability of the expression `target` in a control-flow graph under the bindings of ev: branch nodes
+    whose condition evaluates (three-valued) to a definite value are followed only along that edge.  Sound for quantities
+    that are not written on the way (callers bind parameters and single-assignment locals)."""
+    seen = set()
+    work = [cfg.entry]
+    while work:
+        n = work.pop()
+        if n.id in seen:
+            continue
+        seen.add(n.id)
+        if n.e is target or (n.kind == 'decl' and isinstance(n.info, dict) and n.info.get('init') is target):
+            return True
+        want = None
+        if n.kind == 'br' and n.e is not None:
+            cv = const_val_(n.e)
+            want = bool(cv) if cv is not None else ev.ev3(n.e)
+        for m, lab in n.succ:
+            if want is not None and lab in (True, False) and lab != want:
+                continue
+            work.append(m)
+    return False
+
+
+def const_val_(e):
+    from ir import const_val
+    return const_val(e)
